@@ -182,8 +182,15 @@ def build(spec: dict):
     spb, chunk_ratio, pb_count, sb_count, nentries = geometry(spec)
     fh = SparseFile(name=spec.get("name"))
 
-    creator = "hv-verif".encode("utf-16-le")
-    fh.put(0, (b"vhdxfile" + creator).ljust(520, b"\x00"))
+    # the creator field is 512 bytes of free-form UTF-16 text that no reader needs: tools fill it to the last unit, cut long
+    # strings mid-character, or leave other bytes there
+    creator = {None: "hv-verif".encode("utf-16-le"),
+               "full": ("Microsoft Windows 10.0.19041.1 " * 9).encode("utf-16-le")[:512],
+               "cut-surrogate": ("creator \U0001F4BE " * 30).encode("utf-16-le")[:510] + b"\x3d\xd8",
+               "lone-surrogate": b"\x00\xdc" + "x".encode("utf-16-le"),
+               "bytes": bytes(range(1, 256)) * 2 + b"\xff\xff",
+               }[spec.get("creator")]
+    fh.put(0, (b"vhdxfile" + creator[:512]).ljust(520, b"\x00"))
     s1, s2 = spec.get("seq", [1, 2])
     bad = spec.get("bad_other_header", False)
     w1, w2 = bytes([0xA1]) * 16, bytes([0xA2]) * 16
